@@ -2472,6 +2472,13 @@ class Ev:
     def subscript(self, v, sl, env, mod, node):
         if isinstance(v, Frag):
             return v
+        if self.outside_value(v) or (isinstance(v, Sym) and isinstance(sl, (ast.Slice, ast.Tuple))):
+            # an item / a slice of a value of an uninterpreted library (an array): an uninterpreted function of it;
+            # slices keep their bounds so that rules can tell the whole from a part
+            if isinstance(sl, ast.Slice):
+                b = {k: (self.ev(x, env, mod) if x is not None else NONE) for k, x in (("lo", sl.lower), ("hi", sl.upper), ("step", sl.step))}
+                return Ctor(".slice", dict({"of": v}, **b), kind="call")
+            return Ctor(".item", {"of": v, "index": Str.lit(ast.unparse(sl))}, kind="call")
         if isinstance(sl, ast.Slice):
             lo = self.ev(sl.lower, env, mod) if sl.lower is not None else None
             hi = self.ev(sl.upper, env, mod) if sl.upper is not None else None
